@@ -4,6 +4,7 @@ every sub-expression of the original over verbatim.  Each application is logged 
 
 A rule never needs to fire: if the shape is absent nothing happens and Verus sees the text as it is.
 """
+import re
 from .rustlex import Src
 from .extract import Undecided
 
@@ -114,7 +115,7 @@ def r3_opt_map(text, log, **kw):
         s = Src(t)
         for p in _find_method(s, "map"):
             cl = _closure(s, p + 2)
-            if not cl or not cl[3]:
+            if not cl:
                 continue
             pat, blo, bhi, _ = cl
             if _has_return(s, blo, bhi):
@@ -189,7 +190,7 @@ def r4_for_each(text, log, **kw):
                 repl = "for %s in 0..%s.len() { let %s = &%s[%s];%s}" % (iv, recv, xv, recv, iv, inner)
                 return _edit(t, s, r, end, repl)
             # X.iter().for_each(|x| ..)
-            if s.seq(p - 4, ".", "iter", "(", ")"):
+            if s.seq(p - 4, ".", "iter", "(", ")") and not re.search(r"&\s*mut\s+%s\b" % re.escape(pat), inner):
                 d = p - 4
                 r = receiver_start(s, d)
                 recv = s.slice(r, d - 1)
@@ -197,7 +198,8 @@ def r4_for_each(text, log, **kw):
                 repl = "for %s in 0..%s.len() { let %s = &%s[%s];\n%s\n}" % (iv, recv, pat, recv, iv, inner)
                 return _edit(t, s, r, end, repl)
             # X.iter_mut().for_each(|v| ..)   (v: &mut T): every use of `*v` / `v` becomes X[i]
-            if s.seq(p - 4, ".", "iter_mut", "(", ")"):
+            # (also X.iter() whose element is written through an erased lock: `(&mut x)` after R6)
+            if s.seq(p - 4, ".", "iter_mut", "(", ")") or s.seq(p - 4, ".", "iter", "(", ")"):
                 d = p - 4
                 r = receiver_start(s, d)
                 recv = s.slice(r, d - 1)
@@ -327,7 +329,21 @@ def rs_stmt_replace(text, log, prefix=None, to="", rule="RS", **kw):
     return text
 
 
+# --- R12v: the unsafe tail that packages (lock guard, extended-lifetime reference) into ValueRef/ValueRefMut --
+def r12_valueref(text, log, **kw):
+    s = Src(text)
+    for p in range(len(s) - 1):
+        if s.txt(p) == "unsafe" and s.is_(p + 1, "{"):
+            c = s.closer(p + 1)
+            inner = [s.txt(k) for k in range(p + 2, c)]
+            if ("ValueRef" in inner or "ValueRefMut" in inner) and "item" in inner and "Some" in inner:
+                log.hit("R12")
+                return text[:s.start(p)] + "Some(item)" + text[s.end(c):]
+    return text
+
+
 RULES = {
+    "R12v": r12_valueref,
     "RS": rs_stmt_replace,
     "R3": r3_opt_map,
     "R4": r4_for_each,
